@@ -198,6 +198,28 @@ def register(db):
         properties=P,
         note="any JSON value (the annotation says dict; nothing upstream guarantees it)",
     ))
+    # what happens to each key of an object document (C04: the decoded object is built from the right pieces)
+    FV = "uf('DictDecoder.find_var', 'u:XmlVar|None', xml_vars, key, data[key])"  # (the body re-assigns `value`)
+    BV = "DictDecoder.bind_value"
+    db.add(Contract(
+        f"{DD}.bind_dataclass", variant="per-key",
+        params={"self": decoder, "data": "dict[str,u:Json]", "clazz": "opaque:type"},
+        requires=["set(data.keys()) != self.context.class_type.derived_keys"],
+        ensures=[], raises=dict(DOCUMENTED), returns="u:Any",
+        loops=[Loop(invariants=[], header="data.items()", modifies=["params"], vars={"params": "dict[str,u:Any]"},
+                    step=[("a-key-is-bound-with-the-field-find_var-selects",
+                           f"implies({FV} is not None, called('{BV}') == 1 and call_arg('{BV}', 1) is meta and call_arg('{BV}', 2) is some({FV}))"),
+                          ("a-plain-key-binds-its-own-value",
+                           f"implies({FV} is not None and (some({FV}).wrapper is None or len(some({FV}).wrapper) == 0 or some({FV}).local_name == key), "
+                           f"call_arg('{BV}', 3) == data[key])"),
+                          ("the-bound-value-is-stored-under-the-field-name",
+                           f"implies({FV} is not None and some({FV}).init, some({FV}).name in params and params[some({FV}).name] is call_result('{BV}'))"),
+                          ("a-non-init-field-is-only-checked-against-its-fixed-value",
+                           f"implies({FV} is not None and not some({FV}).init, called('ParserUtils.validate_fixed_value') == 1 and "
+                           f"call_arg('ParserUtils.validate_fixed_value', 3) is call_result('{BV}'))"),
+                          ("an-unknown-key-binds-nothing", f"implies({FV} is None, called('{BV}') == 0)")])],
+        properties=["C04", "C10"],
+    ))
     assume_method(db, "ClassType", "score_object", returns="real", pure=True)
     assume_method(db, "XmlContext", "local_names_match", returns="bool", pure=True)
     # ------------------------------------------------------------------ values
